@@ -481,6 +481,9 @@ func GenCase(t *rapid.T, p *Profile) *Case {
 			c.Alt.Methods = "none"
 		}
 	}
+	if p.Hostile && rapid.IntRange(0, 3).Draw(t, "closetail") == 0 {
+		c.CloseTail = true
+	}
 	if cfg.UdMs > 0 && cfg.UdCalls > 0 && rapid.IntRange(0, 5).Draw(t, "rmprobe") == 0 {
 		c.RmProbe = true
 	}
